@@ -315,10 +315,10 @@ PROTOCOL_PDUS = [(3, 0, 0), (3, 0, 1), (3, 1, 0), (4, 0, 0), (4, 0, 1), (4, 2, 0
 # Probes appended to every generated behaviour (the generator's alphabet has no find / db inputs). C33 and C34 have
 # their own: C33 asks for every (EDIV,Rand) class, then lets the application store a bond under (0,0) for this peer
 # (that is where LESC bonds live) and asks again - "pairing completed on this connection AND a bond entry exists" -
-# and erases it again; C34 polls with encryption off / on / off / on / off, whatever the state the behaviour ended in.
+# and erases it again; C34 polls with encryption (off /) on / off / on, whatever the state the behaviour ended in.
 SUFFIX = ["find 0", "enc 1", "poll", "poll", "poll", "find 0", "find 3"]
 SUFFIXES = {"C33": ["find 0", "find 1", "find 2", "find 3", "find 4", "find 5", "db 0 0 1", "find 0", "db 0 0 0", "find 0"],
-            "C34": ["poll", "enc 1", "poll", "enc 0", "poll", "enc 1", "poll", "poll", "enc 0", "poll"]}
+            "C34": ["poll", "enc 1", "poll", "enc 0", "poll", "enc 1", "poll", "poll"]}
 # bond data base at the start of every execution: this peer has a bond under slot 1, another device has one under
 # every slot (the data base is not read by the managers before find_key, so what it holds only matters for the probes)
 PRE_THIS, PRE_OTHER = [1], [0, 1, 2, 3, 4, 5]
